@@ -26,6 +26,7 @@ import (
 const (
 	knownSlash       = "C19-txindex-slash-in-value"
 	knownRangeBounds = "C19-index-redundant-range-bounds"
+	knownShortcut    = "C19-search-shortcut-ignores-other-conditions"
 )
 
 type gattr struct {
@@ -109,6 +110,9 @@ func genSValue(t *rapid.T, key string, allowSlash bool) string {
 		numeric = !numeric
 	}
 	if numeric {
+		if rapid.IntRange(0, 5).Draw(t, "big") == 0 {
+			return rapid.SampledFrom(poolBigInts[:8]).Draw(t, "vbig") // exact 64-bit integers: neighbours differ by 1
+		}
 		if rapid.Bool().Draw(t, "small") {
 			return rapid.SampledFrom(poolInts).Draw(t, "vint")
 		}
@@ -174,6 +178,10 @@ func genSCondFor(t *rapid.T, key string, vals []string, minHeight, maxHeight int
 			v = rapid.SampledFrom(poolInts).Draw(t, "lit")
 		}
 		c.Kind, c.Op, c.Lit = "int", rapid.SampledFrom([]string{"<", "<=", ">", ">="}).Draw(t, "op"), v
+		if rapid.IntRange(0, 4).Draw(t, "floatbound") == 0 {
+			// the query language's numbers include floating point ones ("operand can be a ... number")
+			c.Kind, c.Lit = "float", rapid.SampledFrom([]string{"2.5", "7.5", "10.", "100.5", "1000.5"}).Draw(t, "flit")
+		}
 	case "contains":
 		v := pick()
 		if len(v) > 1 && rapid.Bool().Draw(t, "part") {
@@ -191,7 +199,7 @@ func genSCondFor(t *rapid.T, key string, vals []string, minHeight, maxHeight int
 // ---- reference ----
 
 func intOf(s string) (int64, bool) {
-	if !reCanonInt.MatchString(s) || len(s) > 18 {
+	if !fitsInt64(s) {
 		return 0, false
 	}
 	var n int64
@@ -223,6 +231,11 @@ func holds(c gcond, v string) bool {
 			return cmpHolds(c.Op, 1)
 		}
 		return cmpHolds(c.Op, 0)
+	case "float":
+		if !fitsInt64(v) {
+			return false
+		}
+		return cmpHolds(c.Op, ratOf(v).Cmp(ratOf(c.Lit)))
 	}
 	panic("holds: kind " + c.Kind)
 }
@@ -463,11 +476,17 @@ func TestTxSearch(t *testing.T) {
 					switch {
 					case hh != hashPin:
 						v = triF
-					case v != triT:
-						v = triU // "if tx.hash is found, it returns tx result for it": other conditions not documented
 					}
 				}
 				n := gotSet[hh]
+				if pinned && hh == hashPin && v == triF && lib.IsKnown(knownShortcut) {
+					// listed known finding: next to tx.hash the other conditions are ignored
+					lib.ExcludedByKnown(knownShortcut)
+					if n == 1 {
+						lib.ObservedKnown(knownShortcut)
+					}
+					continue
+				}
 				if n > 1 {
 					t.Fatalf("Search(%s) returned tx %d/%d %d times", qstr, it.Height, it.Index, n)
 				}
@@ -646,7 +665,7 @@ func TestBlockSearch(t *testing.T) {
 					t.Fatalf("Search(%s) returned height %d which was never indexed", qstr, h)
 				}
 			}
-			// "block.height = H" present: the Search documentation says that height alone is returned if indexed
+			// "block.height = H" present: Search answers from the primary key alone
 			pin := int64(-1)
 			for _, c := range q.Conds {
 				if c.Key == "block.height" && c.Op == "=" && pin < 0 {
@@ -656,10 +675,15 @@ func TestBlockSearch(t *testing.T) {
 			must, either := 0, 0
 			for i, it := range items {
 				v := searchVerdict(q, attrs[i])
-				if pin >= 0 && it.Height == pin && v != triT {
-					v = triU
-				}
 				n := got[it.Height]
+				if pin >= 0 && it.Height == pin && v == triF && lib.IsKnown(knownShortcut) {
+					// listed known finding: next to block.height = H the other conditions are ignored
+					lib.ExcludedByKnown(knownShortcut)
+					if n == 1 {
+						lib.ObservedKnown(knownShortcut)
+					}
+					continue
+				}
 				if n > 1 {
 					t.Fatalf("Search(%s) returned height %d %d times", qstr, it.Height, n)
 				}
